@@ -7,13 +7,13 @@ EXTENDS Tables, Json
 
 MC_Vals == {1, 2}
 
-Abs      == [id |-> id,  val |-> val,  vt |-> vt]
-AbsPrime == [id |-> id', val |-> val', vt |-> vt']
+St      == [id |-> id,  val |-> val,  vt |-> vt]
+StPrime == [id |-> id', val |-> val', vt |-> vt']
 
-MCInit == Init /\ PrintT(<<"INIT", ToJson(Abs)>>)
+MCInit == Init /\ PrintT(<<"INIT", ToJson(St)>>)
 NextPT == PTNext
 NextVT == VTNext
 View   == vars
-Edge   == PrintT(<<"EDGE", ToJson([from |-> Abs, to |-> AbsPrime, l |-> last'])>>)
+Edge   == PrintT(<<"EDGE", ToJson([from |-> St, to |-> StPrime, l |-> last'])>>)
 NoEdge == TRUE
 =============================================================================
